@@ -79,6 +79,17 @@ func init() {
 			}
 			BFS(c, &PartialFamily{Nmax: np, TR: tr, UndoBud: 1, FRBud: 1, Junk: true, SetLimit: 2, Prop: "C09", Collect: "C01"}, 0)
 		}
+		// offset-start family: Stump and partial MapPollard started from the bare roots of large
+		// accumulators (rows 5..63), then a few added leaves are added, remembered, deleted, undone
+		ob := pick(c, []uint64{32, 1<<31 + 1, 1<<62 + 1, 1<<63 - 4}, []uint64{31, 32, 33, 1<<31 - 1, 1 << 31, 1<<31 + 1, 1<<32 - 1, 1<<32 + 1, 1<<62 - 1, 1<<62 + 1, 1<<63 - 4})
+		c.Cov.Bound["offset_start.bases"] = fmt.Sprint(ob)
+		for _, b := range ob {
+			if c.Expired() {
+				break
+			}
+			BFS(c, &LightFamily{Nmax: pick(c, 4, 5), Prop: "C07", RemMode: "none", Base: b, Collect: "C01"}, 0)
+			BFS(c, &PartialFamily{Nmax: pick(c, 3, 4), TR: 63, UndoBud: 1, SetLimit: 2, Prop: "C09", Base: b, Collect: "C01"}, 0)
+		}
 		if c.Thorough() {
 			tallFamily(c, "C01")
 		}
